@@ -708,9 +708,9 @@ func gen(mode string) func(c *hx.Ctx) {
 				{w(1200, 20000), func() string { return genRandom(c) }, "random"},
 				{w(300, 5000), func() string { return genSweep(c) }, "sweep"},
 				{w(6, 100), func() string { return genBurst(c, 2+c.Rng.Intn(4)) }, "burst"},
-				{w(250, 6000), func() string { return genLongLoad(c) }, "longload"},
-				{w(3, 30), func() string { return genManyRotted(c, 130+c.Rng.Intn(170)) }, "manyrotted"},
-				{w(3, 30), func() string { return genManyLive(c, 258+c.Rng.Intn(60)) }, "manylive"},
+				{w(600, 6000), func() string { return genLongLoad(c) }, "longload"},
+				{w(6, 40), func() string { return genManyRotted(c, 130+c.Rng.Intn(170)) }, "manyrotted"},
+				{w(6, 40), func() string { return genManyLive(c, 258+c.Rng.Intn(60)) }, "manylive"},
 			}
 		case "C05":
 			genBoundary(c, emit)
@@ -718,10 +718,10 @@ func gen(mode string) func(c *hx.Ctx) {
 				{w(2500, 50000), func() string { return genRandom(c) }, "random"},
 				{w(1500, 30000), func() string { return genSweep(c) }, "sweep"},
 				{w(600, 10000), func() string { return genShare(c) }, "share"},
-				{w(60, 1500), func() string { return genLongLoad(c) }, "longload"},
-				{w(14, 120), func() string { return genManyRotted(c, 128+c.Rng.Intn(172)) }, "manyrotted"},
+				{w(150, 1500), func() string { return genLongLoad(c) }, "longload"},
+				{w(40, 150), func() string { return genManyRotted(c, 128+c.Rng.Intn(172)) }, "manyrotted"},
 				{w(0, 25), func() string { return genManyRotted(c, 300+c.Rng.Intn(700)) }, "manyrotted_big"},
-				{w(4, 40), func() string { return genManyLive(c, 258+c.Rng.Intn(60)) }, "manylive"},
+				{w(10, 40), func() string { return genManyLive(c, 258+c.Rng.Intn(60)) }, "manylive"},
 			}
 		default: // C06
 			phases = []phase{
@@ -729,10 +729,10 @@ func gen(mode string) func(c *hx.Ctx) {
 				{w(4, 50), func() string { return genBurst(c, 40) }, "burst40"},
 				{w(150, 8000), func() string { return genShare(c) }, "share"},
 				{w(150, 8000), func() string { return genRandom(c) }, "random"},
-				{w(60, 1500), func() string { return genLongLoad(c) }, "longload"},
-				{w(10, 100), func() string { return genManyLive(c, 257+c.Rng.Intn(64)) }, "manylive"},
+				{w(100, 1500), func() string { return genLongLoad(c) }, "longload"},
+				{w(30, 120), func() string { return genManyLive(c, 257+c.Rng.Intn(64)) }, "manylive"},
 				{w(0, 25), func() string { return genManyLive(c, 320+c.Rng.Intn(700)) }, "manylive_big"},
-				{w(4, 40), func() string { return genManyRotted(c, 130+c.Rng.Intn(170)) }, "manyrotted"},
+				{w(10, 40), func() string { return genManyRotted(c, 130+c.Rng.Intn(170)) }, "manyrotted"},
 			}
 		}
 		for _, ph := range phases {
